@@ -866,7 +866,11 @@ func connBody(c *runner.Ctx) {
 			if in.accepted && in.failedBeforeFirst && !in.gotFirst && in.errorEnvs == 0 && !in.failedHard && !in.clientUnsub && !h.writeFailed {
 				c.ViolateFor("C16", "initial-failure-not-reported", "the first computation of instance %d (id %s) failed with an ordinary error but the client got neither an update nor an error envelope", in.inst, in.id)
 			}
-			if in.accepted && !in.ended && (in.initialErr || in.failedHard) {
+			// (if the socket broke during this very check - the echo's write failed -
+			// the connection is being torn down, a computation released by that may
+			// only now be reporting its failure, and the end-of-run accounting below
+			// is what judges the outcome)
+			if in.accepted && !in.ended && (in.initialErr || in.failedHard) && !h.s.isClosed && !h.writeFailed {
 				c.ViolateFor("C16,C17,C02", "failed-subscription-not-closed", "instance %d (id %s) failed (%s) but is still registered 5 simulated minutes later: no Unsubscribe was logged, its id and its slot stay taken", in.inst, in.id, map[bool]string{true: "initial failure, error envelope sent", false: "a resolver returned context.Canceled"}[in.initialErr])
 			}
 			if !in.accepted || in.ended || in.initialErr || in.failedHard {
